@@ -1,4 +1,21 @@
-(* C16/Props.v -- property theorems only. *)
+(* C16/Props.v -- property theorems only; each is closed by [exact] of a lemma
+   from C16/P*.v and followed by Print Assumptions.  The model [resize1]
+   (C16/Model.v) is the 1-d resize_array; its slice arithmetic and legality
+   guards are REGENERATED from odl/util/numerics.py into Gen/Padding.v. *)
 From Coq Require Import ZArith Reals List Bool.
 From Verif Require Import Base.Num Base.Vec Base.VecR C16.Syntax Gen.Padding C16.Model C16.Proofs.
 Import ListNotations.
+Local Open Scope R_scope.
+
+(* T1 (periodic, symmetric): whenever both directions succeed, the adjoint
+   direction is the transpose of the forward direction: <R x, y> = <x, R^T y>
+   for every input length, every admissible left/right padding and all contents. *)
+Theorem resize_adjoint_gather :
+  forall m c c' cast cast' (x yl ym yr : list R) fx ay,
+  gather_mode m = true -> (0 < length yl + length yr)%nat ->
+  pads_ok m (length x) (length yl) (length yr) -> length ym = length x ->
+  resize1 m Forward c cast x (length yl + length x + length yr) (Z.of_nat (length yl)) = Ok fx ->
+  resize1 m Adjoint c' cast' (yl ++ ym ++ yr) (length x) (Z.of_nat (length yl)) = Ok ay ->
+  dot fx (yl ++ ym ++ yr) = dot x ay.
+Proof. exact adjoint_gather. Qed.
+Print Assumptions resize_adjoint_gather.
